@@ -35,6 +35,9 @@ type VerifC15Case struct {
 	Get  string `json:"get"`  // http modes: changes | entities
 	Pre  int    `json:"pre"`  // http mode: number of filler entities posted in the same request before Body's entities (unused by the driver; part of Body)
 	DsN  []string `json:"ds"` // httptxn: datasets to create and read back
+	Restart bool  `json:"restart"` // http mode: close and reopen the store after the first POST
+	Body2   string `json:"body2"`  // http mode: a second POST (after the restart, if any) before the GET
+	Fn      string `json:"fn"`     // proxy mode: changes-raw | changes | entities-raw | entities
 }
 
 type VerifC15Parse struct {
@@ -51,18 +54,29 @@ type VerifC15Obs struct {
 	Status   int              `json:"status"`             // http modes: status of the POST
 	Post     *VerifC15Parse   `json:"post,omitempty"`     // http modes: tokens of the posted body
 	More     []*VerifC15Parse `json:"more,omitempty"`     // httptxn: further datasets read back
+	Status2  int              `json:"status2"`            // http mode: status of the second POST (0 = none)
+	Post2    *VerifC15Parse   `json:"post2,omitempty"`
+	Token    string           `json:"token"`              // proxy mode: continuation token returned
 	GetBytes int              `json:"getbytes,omitempty"` // size of the GET response
 	PostReply string          `json:"postreply,omitempty"`
 }
 
 type VerifC15Driver struct {
-	dir   string
-	store *server.Store
-	n     int
+	dir    string
+	store  *server.Store
+	dsm    *server.DsManager
+	n      int
+	remote *httptest.Server
+	page   []byte
+	proxy  *server.ProxyDataset
 }
 
 func verifC15Store(dir string) (*server.Store, *server.DsManager) {
 	_ = os.RemoveAll(dir)
+	return verifC15Open(dir)
+}
+
+func verifC15Open(dir string) (*server.Store, *server.DsManager) {
 	cfg := &conf.Config{Logger: zap.NewNop().Sugar(), StoreLocation: dir}
 	store := server.NewStore(cfg, &statsd.NoOpClient{})
 	dsm := server.NewDsManager(cfg, store, server.NoOpBus())
@@ -78,11 +92,95 @@ var verifC15Receiver = []string{"http://ex.org/a/", "http://ex.org/b#", "https:/
 
 func NewVerifC15Driver(dir string) *VerifC15Driver {
 	d := &VerifC15Driver{dir: dir}
-	d.store, _ = verifC15Store(dir + "/parse")
+	d.store, d.dsm = verifC15Store(dir + "/parse")
 	return d
 }
 
+// the remote hub of the proxy dataset: answers every request with the page of the current case
+func (d *VerifC15Driver) proxyDataset() (*server.ProxyDataset, error) {
+	if d.proxy != nil {
+		return d.proxy, nil
+	}
+	d.remote = httptest.NewServer(http.HandlerFunc(func(w http.ResponseWriter, r *http.Request) {
+		w.Header().Set("Content-Type", "application/json")
+		w.WriteHeader(200)
+		_, _ = w.Write(d.page)
+	}))
+	ds, err := d.dsm.CreateDataset("px", &server.CreateDatasetConfig{
+		ProxyDatasetConfig: &server.ProxyDatasetConfig{RemoteURL: d.remote.URL + "/datasets/remote"}})
+	if err != nil {
+		return nil, err
+	}
+	d.proxy = ds.AsProxy(func(req *http.Request) {})
+	return d.proxy, nil
+}
+
+func (d *VerifC15Driver) runProxy(c VerifC15Case, body []byte) *VerifC15Obs {
+	obs := &VerifC15Obs{}
+	obs.Groups = [][]interface{}{}
+	obs.Ns = [][]string{}
+	obs.Tokens, obs.EOF = verifC15Tokens(body)
+	px, err := d.proxyDataset()
+	if err != nil {
+		obs.Outcome = "setup-error"
+		obs.Detail = err.Error()
+		return obs
+	}
+	d.page = body
+	ids := make([]interface{}, 0)
+	idOnly := func(id string) map[string]interface{} {
+		return map[string]interface{}{"id": verifC15Name(d.store, id), "rec": "0", "del": false,
+			"props": []interface{}{}, "refs": []interface{}{}}
+	}
+	raw := func(jsonData []byte) error {
+		var e struct {
+			ID string `json:"id"`
+		}
+		if err := json.Unmarshal(jsonData, &e); err != nil {
+			return err
+		}
+		ids = append(ids, idOnly(e.ID))
+		return nil
+	}
+	ent := func(e *server.Entity) error {
+		ids = append(ids, idOnly(e.ID))
+		return nil
+	}
+	func() {
+		defer func() {
+			if r := recover(); r != nil {
+				obs.Outcome = "panic"
+				obs.Detail = fmt.Sprint(r)
+			}
+		}()
+		var tok string
+		var err error
+		switch c.Fn {
+		case "changes-raw":
+			tok, err = px.StreamChangesRaw("", 0, false, false, raw, nil)
+		case "changes":
+			tok, err = px.StreamChanges("", 0, false, false, ent, nil)
+		case "entities-raw":
+			tok, err = px.StreamEntitiesRaw("", 0, raw, nil)
+		default:
+			tok, err = px.StreamEntities("", 0, ent, nil)
+		}
+		if err != nil {
+			obs.Outcome = "err"
+			obs.Detail = err.Error()
+		} else {
+			obs.Outcome = "ok"
+			obs.Token = tok
+		}
+	}()
+	obs.Groups = append(obs.Groups, []interface{}{"", ids})
+	return obs
+}
+
 func (d *VerifC15Driver) Close() {
+	if d.remote != nil {
+		d.remote.Close()
+	}
 	if d.store != nil {
 		_ = d.store.Close()
 	}
@@ -340,6 +438,22 @@ func (d *VerifC15Driver) runHTTP(c VerifC15Case, body []byte) *VerifC15Obs {
 	if obs.Status == 500 && !strings.Contains(obs.PostReply, "\"Internal Server Error\"") {
 		obs.Status = 599 // an error returned by the store, not a recovered panic
 	}
+	if c.Restart {
+		_ = store.Close()
+		store, dsm = verifC15Open(dir)
+		e = verifC15Echo(store, dsm)
+	}
+	if c.Body2 != "" {
+		b2 := []byte(c.Body2)
+		post2 := &VerifC15Parse{Groups: [][]interface{}{}, Ns: [][]string{}}
+		post2.Tokens, post2.EOF = verifC15Tokens(b2)
+		obs.Post2 = post2
+		var pb2 []byte
+		obs.Status2, pb2 = verifC15Do(e, http.MethodPost, "/datasets/"+names[0]+"/entities", b2)
+		if obs.Status2 == 500 && !strings.Contains(string(pb2), "\"Internal Server Error\"") {
+			obs.Status2 = 599
+		}
+	}
 	get := c.Get
 	if get == "" {
 		get = "changes"
@@ -379,6 +493,8 @@ func (d *VerifC15Driver) Run(c VerifC15Case) *VerifC15Obs {
 		return &VerifC15Obs{VerifC15Parse: *verifC15ParseTxn(d.store, body)}
 	case "http", "httptxn":
 		return d.runHTTP(c, body)
+	case "proxy":
+		return d.runProxy(c, body)
 	}
 	return &VerifC15Obs{VerifC15Parse: VerifC15Parse{Outcome: "setup-error", Detail: "unknown mode"}}
 }
